@@ -202,7 +202,7 @@ def main():
     """python3 lib/soak.py Cxx [n]: the soak stage alone (no proof obligations, no normal stage) against $VERIF_REPO."""
     import importlib
     pid = sys.argv[1]
-    n = int(sys.argv[2]) if len(sys.argv) > 2 else int(os.environ.get("VERIF_SOAK", "20000"))
+    n = int(sys.argv[2]) if len(sys.argv) > 2 else int(os.environ.get("VERIF_SOAK", "50000"))
     mod = importlib.import_module(pid.lower())
     prop = getattr(mod, pid)()
     r = Run(pid, "thorough", int(os.environ.get("VERIF_SEED", "20260930")))
